@@ -121,9 +121,28 @@ func runC07(r *run) {
 		var l slog.Logger = slog.New(fmt.Sprintf("c07-%d", i))
 		var cur slog.Logger = l
 		keyPool := c07Keys[:3+g.intn(len(c07Keys)-3)]
+		// one prepared Attrs value handed to the first two loggers of the chain, each of which then
+		// gets another attribute of its own: the loggers' own attributes stay their own
+		sharedCase := depth >= 2 && g.chance(1, 4)
+		var sharedKV kvp
+		var sharedAttrs slog.Attrs
+		var extras []kvp
+		var chainLoggers []slog.Logger
+		if sharedCase {
+			sharedKV = kvp{g.pick(keyPool), next()}
+			sharedAttrs = slog.NewAttrs(sharedKV.k, sharedKV.v)
+		}
 		for d := 0; d < depth; d++ {
 			if d > 0 {
 				cur = cur.New(fmt.Sprintf("child%d", d))
+			}
+			chainLoggers = append(chainLoggers, cur)
+			if sharedCase && d < 2 {
+				cur.SetAttrs1(sharedAttrs)
+				e := kvp{g.pick(keyPool), next()}
+				extras = append(extras, e)
+				chain = append(chain, []kvp{sharedKV, e})
+				continue
 			}
 			var own []kvp
 			if !g.chance(1, 3) {
@@ -154,6 +173,11 @@ func runC07(r *run) {
 				}
 			}
 			chain = append(chain, own)
+		}
+		if sharedCase {
+			for d, e := range extras {
+				chainLoggers[d].SetAttrs(slog.Int(e.k, e.v))
+			}
 		}
 		cur.SetWriter(rec).SetErrorWriter(rec).SetLevel(slog.InfoLevel)
 		switch format {
@@ -199,6 +223,12 @@ func runC07(r *run) {
 			// key registered after the logger's first record counts like any other
 			if g.chance(1, 3) {
 				cur.InfoContext(ctx, "warm-up before any key is registered")
+			}
+			if g.chance(1, 3) {
+				// keys registered earlier and dropped again leave no trace
+				cur.SetContextKeys(&c07Stringer{"dropped-1"}, "dropped-2", &c07Stringer{"dropped-3"})
+				cur.InfoContext(ctx, "warm-up with keys that are reset afterwards")
+				cur.(interface{ ResetContextKeys(keys ...any) *slog.Entry }).ResetContextKeys()
 			}
 			if len(keys) >= 2 && g.chance(1, 2) {
 				cur.SetContextKeys(keys[:1]...)
